@@ -388,6 +388,12 @@ def judge(case, got, status, esc, log, base):
         return v
     if kind == "fwd-odd":
         odd, pos, L = case["odd"], case["pos"], case["L"]
+        # whatever the server makes of an odd element, the hop it takes the client address from must be one of
+        # the hops it hands to the application as trusted (the rewritten Forwarded value): otherwise a hop
+        # "further left" has reached the application through REMOTE_ADDR
+        if status == 200 and g and "HTTP_FORWARDED" in g and g.get("REMOTE_ADDR") != base.get("REMOTE_ADDR"):
+            if g["REMOTE_ADDR"] not in g["HTTP_FORWARDED"]:
+                v.append(("address-from-outside-trusted-suffix", f"{tag}: REMOTE_ADDR={g['REMOTE_ADDR']!r} but the application is given Forwarded={g['HTTP_FORWARDED']!r}"))
         if odd == "400":
             need400("malformed Forwarded element")
         elif odd == "badproto":
